@@ -187,6 +187,18 @@ pub fn install_signal_handlers() {
     }
 }
 
+/// Cap the memory a worker can commit, so that a runaway operation ends in an abort that the
+/// signal handler reports (with the run index) instead of the kernel's OOM killer.
+pub fn limit_memory(bytes: u64) {
+    unsafe {
+        let lim = libc::rlimit {
+            rlim_cur: bytes,
+            rlim_max: bytes,
+        };
+        libc::setrlimit(libc::RLIMIT_DATA, &lim);
+    }
+}
+
 /// (Re)arm the per-run hang watchdog. Pure hang detector; never influences a terminating run.
 pub fn arm_watchdog(seconds: u32) {
     unsafe {
